@@ -26,14 +26,20 @@ type Env struct {
 	Confirm  bool
 	St       *Stats
 	self     int64
+	before   map[int64]bool // goroutines that existed before this execution (e.g. left stuck by an earlier one)
 	done     atomic.Int32
 	total    atomic.Int32
 	FreeIdle func() bool // optional (free mode): extra condition for "nothing more will happen" (e.g. pollers only)
 }
 
+var envDFS *sched.DFS // set by runDriver while a small scenario is being enumerated
+
 func NewEnv(mode string, seed int64, strategy string, replay []string, st *Stats, confirm bool, pollPrefixes ...string) *Env {
-	e := &Env{R: rec.New(), Mode: mode, St: st, Confirm: confirm, self: sched.Goid()}
-	e.Opts = sched.Options{Seed: seed, Strategy: strategy, Replay: replay, PCTDepth: 3, IdleProb: 150, MaxSteps: 6000, PollPrefixes: pollPrefixes}
+	e := &Env{R: rec.New(), Mode: mode, St: st, Confirm: confirm, self: sched.Goid(), before: map[int64]bool{}}
+	for _, g := range sched.Snapshot() {
+		e.before[g.Gid] = true
+	}
+	e.Opts = sched.Options{Seed: seed, Strategy: strategy, Replay: replay, PCTDepth: 3, IdleProb: 150, MaxSteps: 6000, PollPrefixes: pollPrefixes, DFS: envDFS}
 	if mode == "c" {
 		ctl.Begin(e.Opts)
 	} else {
@@ -70,6 +76,9 @@ func (e *Env) WaitTerminal() (stuck bool) {
 			}
 		}
 		e.Res.Steps, e.Res.Choices, e.Res.Blocked = r.Steps, r.Choices, r.Blocked
+		if e.Opts.DFS != nil {
+			e.Opts.DFS.Frozen = true // only the main phase of an execution is enumerated
+		}
 		if r.Infra != "" {
 			e.Infra = r.Infra
 		}
@@ -115,7 +124,7 @@ func (e *Env) End(budget time.Duration, match func(g sched.GInfo) bool) []sched.
 		budget = 100 * time.Millisecond
 		e.St.Stuck++
 	}
-	left := sched.WaitGone(e.self, budget, match)
+	left := sched.WaitGone(e.self, budget, func(g sched.GInfo) bool { return !e.before[g.Gid] && match(g) })
 	runtime.GC()
 	return left
 }
@@ -149,6 +158,8 @@ type scenarioRunner struct {
 	poll []string
 	// reps: schedules per scenario in controlled mode
 	reps int
+	// small reports whether a scenario is small enough for the preemption-bounded enumeration of its schedules
+	small func(sc any) bool
 }
 
 func runDriver(sr scenarioRunner, args map[string]string) {
@@ -194,15 +205,42 @@ func runDriver(sr scenarioRunner, args map[string]string) {
 	}
 	rng := rand.New(rand.NewSource(seed))
 	strategies := []string{"hold", "random", "hold", "pct"}
+	var fixed any
+	if sf := args["scenario"]; sf != "" {
+		b, err := os.ReadFile(sf)
+		if err != nil {
+			fatalf("%v", err)
+		}
+		fixed = sr.decode(b)
+	}
 	reps := 1
 	if mode == "c" && sr.reps > 0 {
 		reps = sr.reps
 	}
 	for i := 0; i < n && st.Stuck < 12; i++ { // a dozen executions whose calls never returned are evidence enough
 		sc := sr.gen(rng, profile, mode)
+		if fixed != nil {
+			sc = fixed
+		}
 		eseed := rng.Int63()
-		for k := 0; k < reps; k++ {
-			e := NewEnv(mode, eseed+int64(k), strategies[(i+k)%len(strategies)], nil, st, false, sr.poll...)
+		nreps := reps
+		if dfsMax := int(atoi64(args["dfsmax"], 0)); mode == "c" && dfsMax > 0 && sr.small != nil && sr.small(sc) {
+			envDFS = &sched.DFS{Bound: int(atoi64(args["dfsbound"], 2))}
+			nreps = dfsMax
+		}
+		for k := 0; k < nreps; k++ {
+			strategy := strategies[(i+k)%len(strategies)]
+			if fs := args["strategy"]; fs != "" {
+				strategy = fs
+			}
+			if envDFS != nil {
+				if !envDFS.Next() {
+					st.OpCounts["dfs_exhausted"]++
+					break
+				}
+				strategy = "dfs"
+			}
+			e := NewEnv(mode, eseed+int64(k), strategy, nil, st, false, sr.poll...)
 			evs := sr.run(st.Executions, sc, e)
 			if e.Infra != "" {
 				st.Infra = append(st.Infra, fmt.Sprintf("exec %d: %s", st.Executions, e.Infra))
@@ -235,6 +273,12 @@ func runDriver(sr scenarioRunner, args map[string]string) {
 			if len(st.Samples) < 2 {
 				st.Samples = append(st.Samples, map[string]any{"scenario": sc, "events": len(evs), "steps": len(e.Res.Steps), "first_events": headEvents(evs, 12)})
 			}
+		}
+		if envDFS != nil {
+			st.OpCounts["dfs_scenarios"]++
+			st.OpCounts["dfs_schedules"] += envDFS.Schedules
+			st.OpCounts["dfs_diverged"] += envDFS.Diverged
+			envDFS = nil
 		}
 	}
 	w.Close()
